@@ -40,8 +40,15 @@ MANIFEST = {
             "exception family, fatal alert on the wire first, closed, not resumable, bounded steps, peak memory.",
     "note": "Residual (explored only): unmodelled statements of tlsconnection.py, X.509/ASN.1 code, key exchange arithmetic, "
             "memory and wall-clock. Model/implementation tie: differential runs of the loop model, the error table and the "
-            "hello check sequences against the real TLSConnection.",
-    "technique": "Lean 4 proofs over a hand-written model + differential correspondence + structured mutation fuzzing with a "
+            "hello check sequences against the real TLSConnection; by regeneration (translate/gen_errpath.py -> "
+            "TlsModel/Gen/ErrPath.lean, re-read from the AST on every run): every except clause of tlsrecordlayer.py / "
+            "tlsconnection.py equals the reviewed table and the record-layer rows agree with the model's codeDesc; every "
+            "parse call of _getMsg sits under handlers that turn each exception class the parsers raise into a fatal alert; "
+            "every attribute / index use of a getExtension result is dominated by a presence test (decided by enumeration of "
+            "its path condition) or by a listed cross-function check that still exists; the decompression bounds are the "
+            "modelled ones.",
+    "technique": "Lean 4 proofs over a hand-written model + AST-regenerated tables with kernel-decided obligations + "
+                 "differential correspondence + structured mutation fuzzing with a "
                  "property-text oracle (tracemalloc, step counters, wire inspection)",
 }
 
